@@ -99,13 +99,17 @@ fn public_memory_capacity(ctx: &Ctx, rep: &mut Report) {
             None => continue,
         };
         let base = serde_json::to_value(&pf.loaded.proof.public_input).unwrap();
-        let lt = pf.loaded.meta.log_trace;
+        // a trace of 2^16 rows (every builtin of every layout fits at least once; pages stay small)
+        let lt = 16u32;
         let accepts = |n: usize| -> Option<bool> {
             let mut v = base.clone();
+            v["log_n_steps"] = json!(format!("{:#x}", lt - 4));
             v["main_page"] = serde_json::Value::Array((0..n).map(|i| json!({"address": format!("{:#x}", i + 1), "value": format!("{:#x}", 7 * i + 3)})).collect());
             let pi: swiftness_air::public_memory::PublicInput = serde_json::from_value(v).ok()?;
             let r = crate::with_layout!(*layout, L, {
-                let s = setting::<L>(pf, &mut ctx.rng(0x0310));
+                let mut s = setting::<L>(pf, &mut ctx.rng(0x0310));
+                s.trace_size = crate::kit::b2f(&crate::kit::pow2(lt));
+                s.trace_gen = crate::kit::b2f(&crate::refm::zint::root_of_unity(lt));
                 comp::<L>(&s, &pi, &vec![starknet_crypto::Felt::ONE; L::N_CONSTRAINTS])
             });
             Some(match r {
